@@ -80,6 +80,68 @@ def mask_to_shading(k, mask):
     return frozenset(c for i, c in enumerate(cells) if mask >> i & 1)
 
 
+# --------------------------------------------------------------------------------------------
+# long texts: the same definitions, but the classical occurrences are found by extending prefixes
+# (combinations + standardisation is exponential when the pattern is nearly as long as the text)
+# --------------------------------------------------------------------------------------------
+
+def occurrences_dfs(patt, text):
+    """All index tuples of text order-isomorphic to patt, in lexicographic order: a prefix is
+    extended by every later position whose value compares with all chosen values exactly as the
+    next pattern entry compares with the earlier pattern entries."""
+    k, n = len(patt), len(text)
+    out, idx = [], []
+
+    def rec(j, start):
+        if j == k:
+            out.append(tuple(idx))
+            return
+        for i in range(start, n - (k - j) + 1):
+            v = text[i]
+            if all((text[idx[a]] < v) == (patt[a] < patt[j]) for a in range(j)):
+                idx.append(i)
+                rec(j + 1, i + 1)
+                idx.pop()
+
+    import sys
+    if sys.getrecursionlimit() < k + 200:
+        sys.setrecursionlimit(k + 1000)
+    rec(0, 0)
+    return out
+
+
+def mesh_table_dfs(patt, text):
+    """mesh_table for long texts."""
+    out = []
+    n = len(text)
+    for idx in occurrences_dfs(patt, text):
+        inside = set(idx)
+        occupied = frozenset(R.cell_of(idx, text, i) for i in range(n) if i not in inside)
+        out.append((idx, occupied))
+    return out
+
+
+def std_sorted(seq):
+    """Standardisation through sorting (for long sequences); cross-checked with refmodel.std."""
+    order = sorted(range(len(seq)), key=lambda i: seq[i])
+    out = [0] * len(seq)
+    for r, i in enumerate(order):
+        out[i] = r
+    return tuple(out)
+
+
+def selfcheck_dfs(maxk=4, maxn=6):
+    n_cmp = 0
+    for n in range(maxn + 1):
+        for t in R.perms(n):
+            assert std_sorted([2 * v + 1 for v in t]) == R.std(t) == t
+            for k in range(min(maxk, n) + 1):
+                for p in R.perms(k):
+                    assert occurrences_dfs(p, t) == R.occurrences(p, t), (p, t)
+                    n_cmp += 1
+    return n_cmp
+
+
 def selfcheck(maxk=2, maxn=4):
     """The tables against the one-shot definitions, all shadings / all adjacency sets."""
     n_cmp = 0
